@@ -180,8 +180,8 @@ func (en *engine) report(c *ev.Case, clause string, p *probe, o *outcome, split 
 
 func opTitle(op string) string {
 	switch op {
-	case "json", "xml", "cbor", "uri":
-		return map[string]string{"json": "JSON", "xml": "XML", "cbor": "CBOR", "uri": "URI"}[op]
+	case "json", "xml", "cbor", "uri", "respheader":
+		return map[string]string{"json": "JSON", "xml": "XML", "cbor": "CBOR", "uri": "URI", "respheader": "RespHeader"}[op]
 	}
 	return string(op[0]-32) + op[1:]
 }
@@ -236,6 +236,8 @@ func run(e *ev.Env) {
 	// en.splitScalar() is not run: the statement covers comma-free values only under splitting (see extra.go)
 	en.totality()
 	en.mustFail()
+	en.masked()
+	en.modeSeq()
 	en.afterFail() // last: see followup.go
 
 	e.Stat("trips_total", en.g.r[0].trips+en.g.r[1].trips)
